@@ -45,7 +45,7 @@ CHECKS = {
          'DESIGN.md §3 C03', 'E3'),
  'C02': ('exploration',
          'stateless deviation-bounded exploration of thread schedules and fault/close times of the real connection code under a controlled scheduler',
-         'The real Crazyflie / SyncCrazyflie objects connect to a simulated device while a controlled scheduler owns every '
+         'Also: the link is lost (or the user closes) at every line of the traced functions with the interrupted thread held back until the error path has run to its end (scheduling policy env_first, one deviation). The real Crazyflie / SyncCrazyflie objects connect to a simulated device while a controlled scheduler owns every '
          'thread switch and the clock. 14 configurations (Crazyflie / SyncCrazyflie, protocol 3 / 10, hello packet, unsolicited value update during the download, immediate retry of a failed blocking open, default / eager-start / hand-off default schedule). Explored exhaustively: every single deviation (quick) among link error from the '
          'driver thread at any scheduling point, link error raised inside send_packet at any transmission, user close_link '
          'at any point, any other runnable thread at any synchronisation point - and, in two line-level configurations, '
@@ -74,7 +74,7 @@ CHECKS = {
          'DESIGN.md §3 C14', 'enumeration'),
  'C10': ('exploration',
          'stateless deviation-bounded exploration of loss/delay patterns, close/reopen times and timer-vs-dispatcher orders on the real retry code in virtual time',
-         'Also: a focused line-level search (any first deviation + 1-2 switches at the lines of the retry machinery) and the two-deviation exploration of a second user sending across close/re-open. The real Crazyflie.send_packet / retry timers / dispatcher run against a silent simulated device under the '
+         'Also: two requests awaiting the same reply pattern, the same pattern awaited again in the next session (close exactly at the second retry instant: virtual instants are compared on a 1 ns grid), a request registered while a matching packet is being matched is not judged. Also: a focused line-level search (any first deviation + 1-2 switches at the lines of the retry machinery) and the two-deviation exploration of a second user sending across close/re-open. The real Crazyflie.send_packet / retry timers / dispatcher run against a silent simulated device under the '
          'controlled scheduler. 22 scenarios (a second user thread sending across close/re-open, hand-off default schedule, single request with 0.2 s and 1 s timeout, prefix-sharing patterns in both '
          'issue orders, unsolicited packet matching several pending patterns, close, close+reopen inside and at the retry '
          'instant, reliable link) are explored with every single deviation and (3 scenarios quick / all thorough) every '
@@ -99,7 +99,7 @@ CHECKS = {
          'DESIGN.md §3 C20', 'enumeration'),
  'C06': ('exploration',
          'exhaustive input enumeration plus stateless deviation-bounded exploration of reply faults, link loss and schedules on the real Memory subsystem',
-         'Also: four long transfers (2500-5100 bytes), focused line-level searches (one reply fault / link loss / second-user request + 1-2 thread switches at the lines of the memory subsystem), link lost at any point followed by a second user\'s request within 30 points, two user threads at line level. Part A drives every (memory id in {0,1,255}) x (7 start addresses incl. chunk boundaries and the top of the 32-bit '
+         'Also: the link is lost at every line of the user\'s call and of the handlers with the interrupted thread held back until the error path has finished (policy env_first); the fault thread is parked before the first request. Also: four long transfers (2500-5100 bytes), focused line-level searches (one reply fault / link loss / second-user request + 1-2 thread switches at the lines of the memory subsystem), link lost at any point followed by a second user\'s request within 30 points, two user threads at line level. Part A drives every (memory id in {0,1,255}) x (7 start addresses incl. chunk boundaries and the top of the 32-bit '
          'space) x (read lengths 0..61, write lengths 0..76, with and without progress callback) through the real Memory '
          'class against a sparse device image: returned bytes, final image, request/chunk tiling (<= 20 / <= 25 bytes, '
          'ascending, once), exactly one notification, no lock or record left. Part B explores 25 operation sequences (1-3 '
@@ -124,7 +124,7 @@ CHECKS = {
          'DESIGN.md §3 C08', 'enumeration'),
  'C04': ('exploration',
          'exhaustive input enumeration plus stateless deviation-bounded exploration of user-thread schedules and reply delays on the real parameter code',
-         'Part A: all 10 firmware parameter types x both id widths (protocol 10 / 3) x a value alphabet (type min/max, one '
+         'Also: two observers of every kind (parameter, group, all) are registered and each must be told exactly once. Part A: all 10 firmware parameter types x both id widths (protocol 10 / 3) x a value alphabet (type min/max, one '
          'beyond, -1, 0, 1, 2, 2^64, decimal strings; float specials and overflow) through the real set_value / '
          'request_param_update: exact wire bytes, refusal without any transmission, cache, get_value and each of the three '
          'callback kinds exactly once with str(device value). Part B: 25 configurations of 13 thread sets (2-3 user threads issuing set / read / '
@@ -154,7 +154,7 @@ CHECKS = {
          'DESIGN.md §3 C05', 'E2'),
  'C11': ('fault_enumeration',
          'exhaustive enumeration of crash points (every prefix of the cache file) and of cache-directory/checksum configurations on the real cache and connect code',
-         'Fetch level: for log and parameter tables with 0, 1, 3 and 40 entries (plain and extended) every prefix length of '
+         'Also: log/param checksum collision with tables of equal size as well as of different sizes. Fetch level: for log and parameter tables with 0, 1, 3 and 40 entries (plain and extended) every prefix length of '
          'the cache file the library itself wrote is put in place and TocCache.fetch must return None or a table equal '
          'entry for entry; 8 kinds of unparsable entries (garbage, non-UTF-8, other JSON shapes, foreign __class__, '
          'directory) and 39 neighbouring checksums. Connect level: a real Crazyflie connects to SimCF with the rw cache '
